@@ -195,6 +195,33 @@ fn run<T>(f: impl FnOnce(Arc<TestMonitor>) -> Result<T, String>) -> Outcome<T> {
     }
 }
 
+thread_local! {
+    static HOLD: std::cell::Cell<bool> = const { std::cell::Cell::new(false) };
+    static HELD: std::cell::RefCell<Option<Archive>> = const { std::cell::RefCell::new(None) };
+}
+
+/// From now on (on this thread) every operation goes through one `Archive` handle, opened by the
+/// first of them and kept -- what a long-running program using the library does -- instead of
+/// opening the archive afresh for each operation as the command-line tool does.
+pub fn hold_handle(on: bool) {
+    HOLD.with(|h| h.set(on));
+    if !on {
+        HELD.with(|h| *h.borrow_mut() = None);
+    }
+}
+
+pub async fn open_archive(t: Transport) -> Result<Archive, String> {
+    if HOLD.with(|h| h.get()) {
+        if let Some(a) = HELD.with(|h| h.borrow().clone()) {
+            return Ok(a);
+        }
+        let a = Archive::open(t).await.map_err(errstr)?;
+        HELD.with(|h| *h.borrow_mut() = Some(a.clone()));
+        return Ok(a);
+    }
+    Archive::open(t).await.map_err(errstr)
+}
+
 pub fn errstr(e: conserve::Error) -> String {
     format!("{e}: {e:?}").chars().take(400).collect()
 }
@@ -226,7 +253,7 @@ pub fn backup(t: Transport, src: &Path, o: Opts, excl: &[String], changes: Optio
     let excl = excl.to_vec();
     run(move |monitor| {
         block_on(async {
-            let archive = Archive::open(t).await.map_err(errstr)?;
+            let archive = open_archive(t).await?;
             let options = backup_opts(o, &excl, changes);
             conserve::backup(&archive, &src, &options, monitor)
                 .await
@@ -241,7 +268,7 @@ pub fn backup_cb(t: Transport, src: &Path, o: Opts, cb: Arc<dyn Fn(&str) + Send 
     let src = src.to_path_buf();
     run(move |monitor| {
         block_on(async {
-            let archive = Archive::open(t).await.map_err(errstr)?;
+            let archive = open_archive(t).await?;
             let mut options = backup_opts(o, &[], None);
             options.change_callback = Some(Box::new(move |ch: &EntryChange| {
                 cb(&ch.apath);
@@ -274,7 +301,7 @@ pub fn restore(
     let subtree = subtree.map(String::from);
     run(move |monitor| {
         block_on(async {
-            let archive = Archive::open(t).await.map_err(errstr)?;
+            let archive = open_archive(t).await?;
             let options = RestoreOptions {
                 exclude: exclude(&excl),
                 only_subtree: subtree.map(|s| s.parse::<Apath>().expect("valid subtree")),
@@ -307,7 +334,7 @@ pub fn list(t: Transport, band: Option<u32>, subtree: &str, excl: &[String]) -> 
     run(move |monitor| {
         block_on(async {
             use conserve::EntryTrait;
-            let archive = Archive::open(t).await.map_err(errstr)?;
+            let archive = open_archive(t).await?;
             let mut stitch = archive
                 .iter_entries(
                     sel(band),
@@ -346,7 +373,7 @@ pub fn delete(t: Transport, _root: &Path, bands: &[u32], dry_run: bool, break_lo
     run(move |monitor| {
         let linger = LINGER.with(|l| l.get());
         block_on_fresh(async {
-            let archive = Archive::open(t).await.map_err(errstr)?;
+            let archive = open_archive(t).await?;
             let r = archive
                 .delete_bands(&ids, &DeleteOptions { dry_run, break_lock }, monitor)
                 .await
@@ -367,7 +394,7 @@ pub fn delete(t: Transport, _root: &Path, bands: &[u32], dry_run: bool, break_lo
 pub fn validate(t: Transport, skip_block_hashes: bool) -> Outcome<()> {
     run(move |monitor| {
         block_on(async {
-            let archive = Archive::open(t).await.map_err(errstr)?;
+            let archive = open_archive(t).await?;
             archive
                 .validate(&ValidateOptions { skip_block_hashes }, monitor)
                 .await
@@ -379,7 +406,7 @@ pub fn validate(t: Transport, skip_block_hashes: bool) -> Outcome<()> {
 pub fn list_bands(t: Transport) -> Outcome<Vec<u32>> {
     run(move |_monitor| {
         block_on(async {
-            let archive = Archive::open(t).await.map_err(errstr)?;
+            let archive = open_archive(t).await?;
             let ids = archive.list_band_ids().await.map_err(errstr)?;
             Ok(ids
                 .into_iter()
@@ -392,7 +419,7 @@ pub fn list_bands(t: Transport) -> Outcome<Vec<u32>> {
 pub fn band_closed(t: Transport, band: u32) -> Outcome<bool> {
     run(move |_monitor| {
         block_on(async {
-            let archive = Archive::open(t).await.map_err(errstr)?;
+            let archive = open_archive(t).await?;
             archive
                 .band_is_closed(BandId::new(&[band]))
                 .await
@@ -407,7 +434,7 @@ pub fn diff(t: Transport, band: Option<u32>, src: &Path, include_unchanged: bool
     let excl = excl.to_vec();
     run(move |monitor| {
         block_on(async {
-            let archive = Archive::open(t).await.map_err(errstr)?;
+            let archive = open_archive(t).await?;
             let st = archive.open_stored_tree(sel(band)).await.map_err(errstr)?;
             let lt = conserve::SourceTree::open(&src).map_err(errstr)?;
             let options = conserve::DiffOptions {
